@@ -3,6 +3,7 @@ import multiprocessing as mp
 import os
 
 from pyvc import core, grammar
+from props import common
 from pyvc.core import Obl, DISCHARGED, FAILED, UNDECIDED, STALE
 
 _PC = None
@@ -80,3 +81,62 @@ def replay_production(ob, kind):
         if len(got) != want:
             return {'input': text, 'observed_pieces': got, 'expected_statements': want, 'reproduced': True}
     return {'candidates_tried': [c[0] for c in cands][:6], 'reproduced': False}
+
+
+def lexical_independence(rep, prop):
+    """The induction over the grammar treats every spelled terminal as one fixed token sequence.  That is sound only if no
+    lexer rule can fuse a terminal W with the token that follows it in a derivation: for every rule of the default lexer
+    table that spells keyword phrases (finite phrase set read off CPython's own parse tree of the rule) and every phrase
+    'W X ...' whose first word W is a one-word terminal of the grammar, either the grammar knows the whole phrase as a
+    terminal (END_IF, UNION_ALL, ...), or X cannot follow W in any sentential form (FOLLOW sets of the grammar)."""
+    from pyvc import grammar, regexfacts
+    from sqlparse import tokens as T
+    follow, _first, _nullable = grammar.follow_sets()
+    rules, _fam = grammar.build_grammar()
+    terms = set()
+    nts = {l for l, _ in rules} | {l for l, _ in grammar.parse_rules(grammar.TOPLEVEL)}
+    for _l, r in list(rules) + grammar.parse_rules(grammar.TOPLEVEL):
+        terms |= {s for s in r if s not in nts}
+    spelled = {t for t in terms if t not in grammar.CLASSES}
+    known_phrases = {t.replace('_', ' ') for t in spelled if '_' in t}
+    cls_of = {}
+    for cname, sample in grammar.CLASSES.items():
+        tk = grammar.terminal_tokens(sample)
+        if len(tk) == 1:
+            cls_of.setdefault(tk[0][0], set()).add(cname)
+    n_rules = 0
+    for rx, action in common.default_lexer_rules():
+        if rx is None:
+            continue
+        ph = regexfacts.phrases(rx)
+        if not ph:
+            continue
+        multi = sorted(p for p in ph if ' ' in p)
+        if not multi:
+            continue
+        n_rules += 1
+        bad = []
+        for p in multi:
+            words = p.split(' ')
+            w, x = words[0], words[1]
+            if w not in spelled or p in known_phrases:
+                continue
+            fw = follow.get(w, set())
+            # what X is when it stands alone
+            tk = grammar.terminal_tokens(x)
+            alone = tk[0][0] if len(tk) == 1 else None
+            if x in fw or any(f.split('_')[0] == x for f in fw):
+                bad.append('%s: %s can follow %s as a terminal' % (p, x, w))
+            elif alone is not None and alone not in T.Keyword and alone not in T.Punctuation:
+                classes = set()
+                for tt, cs in cls_of.items():
+                    if alone in tt or tt in alone:
+                        classes |= cs
+                if alone in T.Name:
+                    classes |= {'NAME', 'TYPE'}
+                if classes & fw:
+                    bad.append('%s: %s (a %s token on its own) can follow %s as %s' % (p, x, alone, w, sorted(classes & fw)))
+        common.structural(rep, '%s/lexer rule %r/fuses no grammar terminal with a token that may follow it' % (prop, rx),
+                          'sqlparse.keywords.SQL_REGEX', not bad, {'rule': rx, 'conflicts': bad, 'phrases': multi[:12]})
+    common.structural(rep, '%s/lexical independence/the phrase rules of the lexer table were inspected' % prop,
+                      'sqlparse.keywords.SQL_REGEX', n_rules >= 1, {'rules': n_rules}, undecided_if_false=True)
